@@ -588,4 +588,334 @@ Proof.
       destruct (first_all_rej h ts Rall) as [->| ->]; auto.
 Qed.
 
+(* ---------------------------------------------------------------- objects *)
+Definition is_none3 (r : option (option (option (string * value)))) : bool := match r with None => true | _ => false end.
+Definition is_rej3 (r : option (option (option (string * value)))) : bool := match r with Some None => true | _ => false end.
+Definition vals_of (rs : list (option (option (option (string * value))))) : list (string * value) :=
+  flat_map (fun r => match r with Some (Some (Some nv)) => [nv] | _ => [] end) rs.
+
+Definition present_count (kvs : list (string * pyval)) (fds : list fdef) : nat :=
+  List.length (filter (fun fd => dict_has (o_aliaser o (fd_alias fd)) kvs) fds).
+
+Lemma sort_strs_nil l : sort_strs l = [] <-> l = [].
+Proof.
+  split; [|intros ->; reflexivity]. destruct l as [|x l]; [reflexivity|]. simpl.
+  generalize (sort_strs l). intros r. destruct r as [|y r]; simpl; [discriminate|].
+  destruct (String.compare x y); discriminate.
+Qed.
+
+Lemma filter_nil_existsb {A} (f : A -> bool) l : filter f l = [] <-> existsb f l = false.
+Proof.
+  induction l as [|x l IH]; simpl; [tauto|]. destruct (f x); simpl; [split; discriminate|exact IH].
+Qed.
+
+Lemma dict_has_get {A} k (l : list (string * A)) : dict_has k l = match dict_get k l with Some _ => true | None => false end.
+Proof. reflexivity. Qed.
+
+Section ObjLoops.
+  Variable f : nat.
+  Variable cd : cdef.
+  Variable kvs : list (string * pyval).
+  Hypothesis wf_kvs : forall k x, In (k, x) kvs -> wf_data x = true.
+  Hypothesis IHf : forall fd x, In fd (cd_fields cd) -> wf_data x = true ->
+      agree (ex f (compile o (fd_con fd) (fd_ty fd)) x) (sp f (fd_con fd) (fd_ty fd) x).
+
+  Lemma dict_get_in {A} k (l : list (string * A)) x : dict_get k l = Some x -> In (k, x) l.
+  Proof.
+    induction l as [|[k' y] l IH]; simpl; [discriminate|].
+    destruct (String.eqb_spec k k') as [->|N]; [intros E; injection E as ->; left; reflexivity|].
+    intros E. right. apply IH. exact E.
+  Qed.
+
+  Lemma spec_field_present fd x :
+    dict_get (o_aliaser o (fd_alias fd)) kvs = Some x ->
+    spec_field u o f cd kvs fd =
+    match sp f (fd_con fd) (fd_ty fd) x with
+    | SFuel => None
+    | SOk v => Some (Some (Some (fd_name fd, v)))
+    | SRej => if (fd_required fd || negb ((fd_fallback fd && negb (fd_required fd)) || o_fallback o))%bool
+              then Some None else Some (Some None)
+    end.
+  Proof. intros E. unfold spec_field. rewrite E. reflexivity. Qed.
+
+  Lemma spec_field_absent fd :
+    dict_get (o_aliaser o (fd_alias fd)) kvs = None ->
+    spec_field u o f cd kvs fd =
+    if fd_required fd then Some None
+    else if existsb (fun r => dict_has r kvs) (requiring o cd (fd_name fd)) then Some None
+    else Some (Some None).
+  Proof. intros E. unfold spec_field. rewrite E. reflexivity. Qed.
+
+  Lemma obj_loop_agree fds :
+    (forall fd, In fd fds -> In fd (cd_fields cd)) ->
+    let rs := map (spec_field u o f cd kvs) fds in
+    match obj_loop (ex f) kvs (map (compile_field o cd) fds) with
+    | (_, _, _, Some st) => st = RFuel \/ existsb is_none3 rs = true
+    | (count, vals, ch, None) =>
+        existsb is_none3 rs = true \/
+        ((ch = [] <-> existsb is_rej3 rs = false) /\ vals = vals_of rs /\ count = present_count kvs fds)
+    end.
+  Proof.
+    induction fds as [|fd fds IH]; intros Hsub; cbn [map obj_loop existsb].
+    - right. repeat split; auto.
+    - assert (Hfd : In fd (cd_fields cd)) by (apply Hsub; left; reflexivity).
+      assert (Hrest : forall fd', In fd' fds -> In fd' (cd_fields cd)) by (intros; apply Hsub; right; assumption).
+      specialize (IH Hrest). cbv zeta in IH.
+      unfold compile_field at 1. cbn [obj_loop].
+      unfold present_count. cbn [filter]. rewrite dict_has_get. fold (present_count kvs fds).
+      unfold vals_of. cbn [flat_map]. fold (vals_of (map (spec_field u o f cd kvs) fds)).
+      destruct (dict_get (o_aliaser o (fd_alias fd)) kvs) as [x|] eqn:Eg.
+      + rewrite (spec_field_present fd x Eg).
+        assert (Hx : wf_data x = true) by (eapply wf_kvs; eapply dict_get_in; exact Eg).
+        specialize (IHf fd x Hfd Hx).
+        destruct (fd_required fd || negb (fd_fallback fd && negb (fd_required fd) || o_fallback o))%bool eqn:Eb;
+          destruct (ex f (compile o (fd_con fd) (fd_ty fd)) x) eqn:G;
+          destruct (sp f (fd_con fd) (fd_ty fd) x) eqn:Hh; simpl in IHf; try contradiction;
+          destruct (obj_loop (ex f) kvs (map (compile_field o cd) fds)) as [[[n vals] ch] [st|]];
+          cbn [is_none3 is_rej3 orb app List.length]; auto;
+          try (destruct IH as [IH|IH]; [left; exact IH|right; exact IH]; fail);
+          try (destruct IH as [IH|[I1 [I2 I3]]]; [left; exact IH|right]; try subst v; rewrite I2, I3;
+               first [tauto | repeat split; intros X; discriminate]).
+      + rewrite (spec_field_absent fd Eg).
+        destruct (obj_loop (ex f) kvs (map (compile_field o cd) fds)) as [[[n vals] ch] [st|]].
+        * destruct (fd_required fd); [|destruct (sort_strs _)];
+            (destruct IH as [IH|IH]; [left; exact IH|right]);
+            try (cbn [is_none3 orb]; exact IH);
+            destruct (existsb _ (requiring o cd (fd_name fd))); cbn [is_none3 orb]; exact IH.
+        * destruct (fd_required fd) eqn:Er.
+          -- cbn [is_none3 is_rej3 orb app].
+             destruct IH as [IH|[I1 [I2 I3]]]; [left; exact IH|right]. rewrite I2, I3.
+             repeat split; intros X; discriminate.
+          -- destruct (sort_strs (filter (fun r => dict_has r kvs) (requiring o cd (fd_name fd)))) eqn:Es.
+             ++ apply (proj1 (sort_strs_nil _)) in Es. apply (proj1 (filter_nil_existsb _ _)) in Es. rewrite Es.
+                cbn [is_none3 is_rej3 orb app].
+                destruct IH as [IH|[I1 [I2 I3]]]; [left; exact IH|right]. rewrite I2, I3. tauto.
+             ++ assert (Ex : existsb (fun r => dict_has r kvs) (requiring o cd (fd_name fd)) = true).
+                { destruct (existsb (fun r => dict_has r kvs) (requiring o cd (fd_name fd))) eqn:E; [reflexivity|].
+                  apply (proj2 (filter_nil_existsb _ _)) in E. rewrite E in Es. discriminate. }
+                rewrite Ex. cbn [is_none3 is_rej3 orb app].
+                destruct IH as [IH|[I1 [I2 I3]]]; [left; exact IH|right]. rewrite I2, I3.
+                repeat split; intros X; discriminate.
+  Qed.
+
+  Lemma simple_loop_agree fds :
+    (forall fd, In fd fds -> In fd (cd_fields cd)) ->
+    (forall fd, In fd fds -> check_only (compile o (fd_con fd) (fd_ty fd)) = true
+                             /\ ((fd_fallback fd && negb (fd_required fd)) || o_fallback o)%bool = false
+                             /\ requiring o cd (fd_name fd) = []) ->
+    let rs := map (spec_field u o f cd kvs) fds in
+    match simple_loop (ex f) kvs (map (compile_field o cd) fds) with
+    | (_, _, _, Some st) => st = RFuel \/ existsb is_none3 rs = true
+    | (count, vals, ch, None) =>
+        existsb is_none3 rs = true \/
+        ((ch = [] <-> existsb is_rej3 rs = false) /\ vals = vals_of rs /\ count = present_count kvs fds)
+    end.
+  Proof.
+    induction fds as [|fd fds IH]; intros Hsub Hsimple; cbn [map simple_loop existsb].
+    - right. repeat split; auto.
+    - assert (Hfd : In fd (cd_fields cd)) by (apply Hsub; left; reflexivity).
+      assert (Hrest : forall fd', In fd' fds -> In fd' (cd_fields cd)) by (intros; apply Hsub; right; assumption).
+      destruct (Hsimple fd (or_introl eq_refl)) as [Hco [Hfb Hrq]].
+      specialize (IH Hrest (fun fd' H' => Hsimple fd' (or_intror H'))). cbv zeta in IH.
+      unfold compile_field at 1. cbn [simple_loop].
+      unfold present_count. cbn [filter]. rewrite dict_has_get. fold (present_count kvs fds).
+      unfold vals_of. cbn [flat_map]. fold (vals_of (map (spec_field u o f cd kvs) fds)).
+      destruct (dict_get (o_aliaser o (fd_alias fd)) kvs) as [x|] eqn:Eg.
+      + rewrite (spec_field_present fd x Eg).
+        assert (Hx : wf_data x = true) by (eapply wf_kvs; eapply dict_get_in; exact Eg).
+        specialize (IHf fd x Hfd Hx). rewrite Hfb.
+        pose proof (check_only_embed f (fd_ty fd) (fd_con fd) x) as CE.
+        destruct (fd_required fd || negb false)%bool eqn:Eb;
+          destruct (ex f (compile o (fd_con fd) (fd_ty fd)) x) eqn:G;
+          destruct (sp f (fd_con fd) (fd_ty fd) x) eqn:Hh; simpl in IHf; try contradiction;
+          destruct (simple_loop (ex f) kvs (map (compile_field o cd) fds)) as [[[n vals] ch] [st|]];
+          cbn [is_none3 is_rej3 orb app List.length]; auto;
+          try (destruct IH as [IH|IH]; [left; exact IH|right; exact IH]; fail);
+          try (destruct IH as [IH|[I1 [I2 I3]]]; [left; exact IH|right];
+               try (rewrite <- (CE _ Hx Hco eq_refl)); rewrite I2, I3;
+               first [tauto | repeat split; intros X; discriminate]).
+      + rewrite (spec_field_absent fd Eg). rewrite Hrq. cbn [existsb].
+        destruct (simple_loop (ex f) kvs (map (compile_field o cd) fds)) as [[[n vals] ch] [st|]];
+          destruct (fd_required fd) eqn:Er; cbn [is_none3 is_rej3 orb app]; auto;
+          try (destruct IH as [IH|IH]; [left; exact IH|right; exact IH]; fail);
+          (destruct IH as [IH|[I1 [I2 I3]]]; [left; exact IH|right]; rewrite I2, I3;
+           first [tauto | repeat split; intros X; discriminate]).
+  Qed.
+End ObjLoops.
+
+(* ---------------------------------------------------------------- the `len(data) != fields_count` shortcut *)
+Lemma filter_or_len {A} (p q : A -> bool) l :
+  (forall x, p x = true -> q x = false) ->
+  List.length (filter (fun x => p x || q x) l) = List.length (filter p l) + List.length (filter q l).
+Proof.
+  intros D. induction l as [|x l IH]; simpl; [reflexivity|].
+  destruct (p x) eqn:P; simpl; [rewrite (D x P); simpl; lia|]. destruct (q x); simpl; lia.
+Qed.
+
+Lemma filter_split_len {A} (p : A -> bool) l :
+  List.length (filter p l) + List.length (filter (fun x => negb (p x)) l) = List.length l.
+Proof. induction l as [|x l IH]; simpl; [reflexivity|]. destruct (p x); simpl; lia. Qed.
+
+Lemma dict_has_filter_pos {A} a (kvs : list (string * A)) :
+  dict_has a kvs = true -> 1 <= List.length (filter (fun kv => String.eqb (fst kv) a) kvs).
+Proof.
+  unfold dict_has. induction kvs as [|[k x] kvs IH]; simpl; [discriminate|].
+  rewrite (String.eqb_sym k a). destruct (String.eqb a k); simpl; [lia|exact IH].
+Qed.
+
+Lemma present_le (A : list string) {B} (kvs : list (string * B)) :
+  nodup_strs A = true ->
+  List.length (filter (fun a => dict_has a kvs) A)
+  <= List.length (filter (fun kv => existsb (String.eqb (fst kv)) A) kvs).
+Proof.
+  induction A as [|a A IH]; intros H; simpl; [lia|].
+  apply andb_true_iff in H. destruct H as [H1 H2]. apply negb_true_iff in H1. specialize (IH H2).
+  rewrite (filter_or_len (fun kv => String.eqb (fst kv) a) (fun kv => existsb (String.eqb (fst kv)) A)).
+  - destruct (dict_has a kvs) eqn:E; simpl; [pose proof (dict_has_filter_pos a kvs E)|]; lia.
+  - intros [k x] P. simpl in *. apply String.eqb_eq in P. subst k. exact H1.
+Qed.
+
+Lemma extra_nil (fds : list fdef) (kvs : list (string * pyval)) :
+  nodup_strs (map (fun fd => o_aliaser o (fd_alias fd)) fds) = true ->
+  List.length kvs = present_count kvs fds ->
+  filter (fun kv => negb (existsb (String.eqb (fst kv)) (map (fun fd => o_aliaser o (fd_alias fd)) fds))) kvs = [].
+Proof.
+  intros Hnd Hc. apply length_zero_iff_nil.
+  set (A := map (fun fd => o_aliaser o (fd_alias fd)) fds) in *.
+  pose proof (present_le A kvs Hnd) as Hle.
+  pose proof (filter_split_len (fun kv : string * pyval => existsb (String.eqb (fst kv)) A) kvs) as Hs.
+  assert (Hpc : present_count kvs fds = List.length (filter (fun a => dict_has a kvs) A)).
+  { unfold present_count, A. clear. induction fds as [|fd fds IH]; simpl; [reflexivity|].
+    destruct (dict_has _ kvs); simpl; rewrite IH; reflexivity. }
+  cbv beta in *. lia.
+Qed.
+
+Lemma andb_diag_assoc a b : (a && b && b)%bool = (a && b)%bool.
+Proof. destruct a, b; reflexivity. Qed.
+
+Lemma wf_get_cls cid : wf_univ u o = true -> wf_cls o true (get_cls u cid) = true.
+Proof.
+  unfold wf_univ, get_cls. intros H. apply andb_true_iff in H. destruct H as [H _].
+  rewrite forallb_forall in H.
+  destruct (nth_in_or_default cid (u_classes u) empty_cls) as [Hin|Hd]; [apply H; exact Hin|rewrite Hd; reflexivity].
+Qed.
+
+Lemma forallb_In {A} (p : A -> bool) l x : forallb p l = true -> In x l -> p x = true.
+Proof. intros H Hin. rewrite forallb_forall in H. apply H. exact Hin. Qed.
+
+Lemma obj_agree f :
+  (forall acc t d, wf_ty t = true -> union_order_ok t = true -> wf_data d = true ->
+      agree (ex f (compile o acc t) d) (sp f acc t d)) ->
+  wf_univ u o = true ->
+  forall cid acc d, wf_data d = true ->
+  agree (ex f (compile_obj o cid (get_cls u cid) acc) d) (sp (S f) acc (TObj cid) d).
+Proof.
+  intros IHf Hwf cid acc d Hd. rewrite spec_TObj_S. cbv zeta.
+  set (cd := get_cls u cid).
+  pose proof (wf_get_cls cid Hwf) as Hc. fold cd in Hc. unfold wf_cls in Hc.
+  apply andb_true_iff in Hc. destruct Hc as [Hc Hnames]. apply andb_true_iff in Hc. destruct Hc as [Hfields Haliases].
+  assert (IHfield : forall fd x, In fd (cd_fields cd) -> wf_data x = true ->
+            agree (ex f (compile o (fd_con fd) (fd_ty fd)) x) (sp f (fd_con fd) (fd_ty fd) x)).
+  { intros fd x Hin Hx. pose proof (forallb_In _ _ _ Hfields Hin) as Hf. apply andb_true_iff in Hf.
+    destruct Hf as [H1 H2]. apply IHf; assumption. }
+  set (aliases := map (fun fd => o_aliaser o (fd_alias fd)) (cd_fields cd)).
+  (* the common end of SimpleObjectMethod and ObjectMethod *)
+  assert (Tail : forall kvs count vals ch msgs (cs : list constr) (e_simple : bool),
+            wf_data (PDict kvs) = true ->
+            (existsb is_none3 (map (spec_field u o f cd kvs) (cd_fields cd)) = true \/
+             ((ch = [] <-> existsb is_rej3 (map (spec_field u o f cd kvs) (cd_fields cd)) = false) /\
+              vals = vals_of (map (spec_field u o f cd kvs) (cd_fields cd)) /\
+              count = present_count kvs (cd_fields cd))) ->
+            (msgs = [] <-> all_valid (ocons cons_dict acc) (PDict kvs) = true) ->
+            agree
+              (let extra := filter (fun kv => negb (existsb (String.eqb (fst kv)) aliases)) kvs in
+               let differ := negb (Nat.eqb (List.length kvs) count) in
+               let ch' := if (differ && negb (o_addprops o))%bool
+                          then (ch ++ map (fun kv => (KStr (fst kv), err_msg msg_unexpected)) extra)%list else ch in
+               let vals' := if (differ && o_addprops o && is_typed_dict cd)%bool
+                            then (vals ++ map (fun kv => (fst kv, embed (snd kv))) extra)%list else vals in
+               match msgs, ch' with
+               | [], [] => ROk (construct cd cid vals')
+               | _, _ => RErr (VE msgs ch')
+               end)
+              (let extra := filter (fun kv => negb (existsb (String.eqb (fst kv)) aliases)) kvs in
+               let rs := map (spec_field u o f cd kvs) (cd_fields cd) in
+               if existsb (fun r => match r with None => true | _ => false end) rs then SFuel
+               else if existsb (fun r => match r with Some None => true | _ => false end) rs then SRej
+               else if (negb (o_addprops o) && negb (match extra with [] => true | _ => false end))%bool then SRej
+               else if negb (all_valid (ocons cons_dict acc) (PDict kvs)) then SRej
+               else
+                 let vals := flat_map (fun r => match r with Some (Some (Some nv)) => [nv] | _ => [] end) rs in
+                 let vals' := if (o_addprops o && is_typed_dict cd)%bool
+                              then (vals ++ map (fun kv => (fst kv, embed (snd kv))) extra)%list else vals in
+                 SOk (construct cd cid vals'))).
+  { intros kvs count vals ch msgs cs _ Hk Hloop Hmsgs. cbv zeta.
+    fold is_none3. fold is_rej3. fold (vals_of (map (spec_field u o f cd kvs) (cd_fields cd))).
+    destruct Hloop as [Hn|[Hch [Hvals Hcount]]]; [rewrite Hn; auto|].
+    destruct (existsb is_none3 _) eqn:En; [auto|].
+    set (extra := filter (fun kv => negb (existsb (String.eqb (fst kv)) aliases)) kvs).
+    assert (Hextra : Nat.eqb (List.length kvs) count = true -> extra = []).
+    { intros E. apply Nat.eqb_eq in E. apply extra_nil; [exact Haliases|]. rewrite <- Hcount. exact E. }
+    destruct (existsb is_rej3 _) eqn:Er.
+    - (* some field rejected *)
+      assert (ch <> []) by (intros X; apply Hch in X; discriminate).
+      destruct (negb (Nat.eqb (List.length kvs) count) && negb (o_addprops o))%bool;
+        destruct msgs; destruct ch; simpl; auto; congruence.
+    - assert (Hc0 : ch = []) by (apply Hch; reflexivity). subst ch. rewrite <- Hvals.
+      destruct (Nat.eqb (List.length kvs) count) eqn:Ed; cbn [negb andb].
+      + rewrite (Hextra eq_refl). cbn [negb andb]. rewrite andb_false_r. cbn [negb andb].
+        destruct (all_valid (ocons cons_dict acc) (PDict kvs)) eqn:Ev; cbn [negb].
+        * rewrite (proj2 Hmsgs eq_refl). rewrite app_nil_r.
+          destruct (o_addprops o && is_typed_dict cd)%bool; reflexivity.
+        * destruct msgs; [exfalso; pose proof (proj1 Hmsgs eq_refl) as X; congruence|simpl; auto].
+      + destruct (o_addprops o) eqn:Ea; cbn [negb andb].
+        * destruct (all_valid (ocons cons_dict acc) (PDict kvs)) eqn:Ev; cbn [negb].
+          -- rewrite (proj2 Hmsgs eq_refl). reflexivity.
+          -- destruct msgs; [exfalso; pose proof (proj1 Hmsgs eq_refl) as X; congruence|simpl; auto].
+        * destruct extra as [|kv extra'] eqn:Ee; cbn [negb andb map app].
+          -- destruct (all_valid (ocons cons_dict acc) (PDict kvs)) eqn:Ev; cbn [negb].
+             ++ rewrite (proj2 Hmsgs eq_refl). reflexivity.
+             ++ destruct msgs; [exfalso; pose proof (proj1 Hmsgs eq_refl) as X; congruence|simpl; auto].
+          -- destruct msgs; simpl; auto. }
+  unfold compile_obj. fold cd. fold aliases.
+  match goal with |- agree (ex f (if ?c then _ else _) d) _ => destruct c eqn:Cond end.
+  - (* SimpleObjectMethod *)
+    rewrite exec_MSimpleObj. destruct d as [| | | | | |kvs|]; auto.
+    apply andb_true_iff in Cond. destruct Cond as [Cond Cfields].
+    apply andb_true_iff in Cond. destruct Cond as [Cond Ctd2].
+    apply andb_true_iff in Cond. destruct Cond as [Ccs Ctd].
+    destruct (wf_data_dict _ Hd) as [Hnd Hsub].
+    pose proof (simple_loop_agree f cd kvs Hsub IHfield (cd_fields cd) (fun _ H => H)) as SL.
+    assert (Hsimple : forall fd, In fd (cd_fields cd) ->
+              check_only (compile o (fd_con fd) (fd_ty fd)) = true /\
+              ((fd_fallback fd && negb (fd_required fd)) || o_fallback o)%bool = false /\
+              requiring o cd (fd_name fd) = []).
+    { intros fd Hin. pose proof (forallb_In _ _ _ Cfields (in_map (compile_field o cd) _ _ Hin)) as Hf.
+      unfold compile_field in Hf. cbn [mf_meth mf_alias mf_name mf_fallback mf_reqby] in Hf.
+      apply andb_true_iff in Hf. destruct Hf as [Hf H4]. apply andb_true_iff in Hf. destruct Hf as [Hf H3].
+      apply andb_true_iff in Hf. destruct Hf as [H1 H2].
+      split; [exact H1|]. split; [apply negb_true_iff in H3; exact H3|].
+      destruct (requiring o cd (fd_name fd)); [reflexivity|discriminate]. }
+    specialize (SL Hsimple). cbv zeta in SL.
+    destruct (simple_loop (ex f) kvs (map (compile_field o cd) (cd_fields cd))) as [[[count vals] ch] [st|]].
+    + destruct SL as [->|SL]; auto. fold is_none3. rewrite SL. auto.
+    + assert (Ecs : ocons cons_dict acc = []) by (destruct (ocons cons_dict acc); [reflexivity|discriminate]).
+      pose proof (Tail kvs count vals ch [] [] true Hd SL) as T. cbv zeta in T.
+      rewrite Ecs in T. specialize (T (conj (fun _ => eq_refl) (fun _ => eq_refl))).
+      rewrite Ecs. cbv zeta. fold cd.
+      destruct (o_addprops o) eqn:Ea; destruct (is_typed_dict cd) eqn:Et; try discriminate Ctd;
+        cbn [andb negb] in *; rewrite ?andb_true_r, ?andb_false_r in *; exact T.
+  - (* ObjectMethod *)
+    rewrite exec_MObj. destruct d as [| | | | | |kvs|]; auto. cbv zeta.
+    destruct (wf_data_dict _ Hd) as [Hnd Hsub].
+    pose proof (obj_loop_agree f cd kvs Hsub IHfield (cd_fields cd) (fun _ H => H)) as OL. cbv zeta in OL.
+    destruct (obj_loop (ex f) kvs (map (compile_field o cd) (cd_fields cd))) as [[[count vals] ch] [st|]].
+    + destruct OL as [->|OL]; auto. fold is_none3. rewrite OL. auto.
+    + apply (Tail kvs count vals ch _ (ocons cons_dict acc) false Hd OL).
+      rewrite validate_nil. destruct (all_valid (ocons cons_dict acc) (PDict kvs)) eqn:Ev.
+      * split; reflexivity.
+      * split; [|discriminate]. intros X. apply map_eq_nil in X.
+        apply (proj1 (filter_nil_forallb _ _)) in X. unfold all_valid in Ev. congruence.
+Qed.
+
 End Main.
